@@ -38,9 +38,11 @@
 (*   Conns = 2          a second pooled connection                         *)
 (*   EarlyClose = TRUE  rows closed before the cache insert                *)
 (*   FlushFirst = TRUE  InvalidateCache before the Exec                    *)
-(*   Lapse = TRUE       no mutator: expires_at passes (the cached entry is *)
-(*                      not expiry-aware) -- the code AS WRITTEN for the   *)
-(*                      second sentence of the property                    *)
+(*   Lapse = TRUE, ExpiryAware = FALSE                                     *)
+(*                      no mutator: expires_at passes and the cached entry *)
+(*                      outlives it -- the code before fix b7d5157         *)
+(* Lapse = TRUE with ExpiryAware = TRUE is the code as it is now (the      *)
+(* entry's deadline is capped at expires_at) and must hold.                *)
 (***************************************************************************)
 EXTENDS Naturals, Sequences, FiniteSets, TLC, Json
 
@@ -49,6 +51,7 @@ CONSTANTS NV,          \* number of concurrent verifiers (1 or 2)
           EarlyClose,  \* TRUE: verifier releases its connection before the cache insert
           FlushFirst,  \* TRUE: mutator invalidates the cache before its Exec
           Lapse,       \* TRUE: the "mutator" is the clock passing expires_at: no Exec, no flush
+          ExpiryAware, \* TRUE: a cache entry never outlives the token's expires_at (as written since b7d5157)
           Emit         \* TRUE: print one TRACE line per complete schedule
 
 Verifiers == IF NV = 1 THEN {"V1"} ELSE {"V1", "V2"}
@@ -146,7 +149,8 @@ VScan(v) ==
 \* V: cache insert and return
 VInsert(v) ==
     /\ pc[v] = "G3"
-    /\ Finish(v, "ok", TRUE)
+    \* an entry inserted after expires_at has passed is born expired (deadline = expires_at)
+    /\ Finish(v, "ok", ~(Lapse /\ ExpiryAware /\ ~row))
 
 \* M: everything before the Exec (nothing as written; the flush when FlushFirst)
 MStart ==
@@ -161,12 +165,13 @@ MExec ==
     /\ pc["M"] = "B"
     /\ IF Lapse \/ Cardinality(holders) < Conns
          THEN /\ row' = FALSE /\ pc' = [pc EXCEPT !["M"] = "A"]
+              /\ cache' = IF Lapse /\ ExpiryAware THEN FALSE ELSE cache   \* the entry's deadline is expires_at
               /\ Record("M", "A", <<>>)
               /\ UNCHANGED waitq
          ELSE /\ waitq' = Append(waitq, "M") /\ pc' = [pc EXCEPT !["M"] = "wait"]
               /\ Record("M", "wait", <<>>)
-              /\ UNCHANGED row
-    /\ UNCHANGED <<cache, holders, seen, res, mret, late>>
+              /\ UNCHANGED <<row, cache>>
+    /\ UNCHANGED <<holders, seen, res, mret, late>>
 
 \* M: InvalidateCache and return
 MFlush ==
